@@ -497,7 +497,7 @@ pub fn run(ctx: &Ctx) -> HResult<()> {
 	let ev = &ctx.ev;
 	ev.rule("histories of good blocks (incl. forks/reorgs, reopen) interleaved with bad inputs failing at every validation stage (PoW, header rule, body validation, coinbase rule, UTXO checks, sums, root/size mismatch after the block was applied, bad header batches, failing validate_tx through the read-only extension) and valid losing-fork blocks; twin chain B never sees the bad inputs; after every step head, roots, full unspent scan, stored sums, spend records and kernel-MMR lookups of the last 12 best-chain blocks and the result of every later delivery are compared, finally validate(false) and reopen on both; non-trivial = a rejection at or after the UTXO stage (or a losing fork) followed by accepted blocks including a reorg; distinct by (set of stages, continuation length)");
 	ev.assume("both twins run the same code: the oracle is divergence between them plus the replay model scan of C02; header_head and stored fork headers are excluded as the statement allows");
-	if let Some((case, f)) = pbt_proc(ctx, "history", ctx.n(480, 8000), 16) {
+	if let Some((case, f)) = pbt_proc(ctx, "history", ctx.n(800, 8000), 16) {
 		ctx.report("history", &f.sig, case, &f.msg);
 	}
 	let s = sample_one(ctx.derive_seed("sample", 0), &case_strategy(5));
